@@ -116,6 +116,24 @@ CHECKS = {
 
 NOT_YET = {}
 
+# additions after the first complete round (DESIGN.md section 8.5); appended to the level texts above
+EXT = {
+    "C01": " Plus seeded larger universes (VERIF_SEED): random forests of 8-12 modules with a concrete random import relation and a window of 10-13 symbolic pairs chosen where the documented verdict is sensitive (one query per instance covers every completion of the window); windowed two-root trees whose window always holds a package's imports of its own deeper descendants; batches listing a NAMED module together with its own descendant on one side (subjects and objects still unrelated).",
+    "C03": " Same additions as C01 (seeded larger universes with a symbolic window, windowed two-root trees, side-related named batches).",
+    "C05": " Plus instances whose LayerRule object was first applied to another code base (one module of a multi-module regex layer missing there); six-module trees use a seeded concrete relation with a window of 13 symbolic pairs.",
+    "C06": " Tag slicing additionally over symbolic token sequences (start tag, end tag - each at most once -, two arrow lines, a noise line; <= 5 / 6 tokens): exactly the arrow lines between a start tag and a following end tag are parsed, every other sequence is rejected.",
+    "C08": " Pattern tuples also include wildcard-free literal paths with a prefix sibling and tuples in which one pattern's text occurs inside another; quick tier: files whose names share no two-character fragment with any pattern are always present.",
+    "C09": " The end-to-end judge treats only 'package -> its direct child' as coinciding with a hierarchy edge; child -> ancestor and ancestor -> deeper descendant imports are compared.",
+    "C11": " Plus lists of partial names in which one name's matches are covered by another's (both orders), and seeded larger universes (random forests of 8-12 modules, window of 10-11 symbolic pairs).",
+    "C12": " Plus the transposed duality law for batches (the batch on the object side of the import-direction rule), seeded larger universes (random forests of 8-12 modules, window of 10-11 symbolic pairs, subjects / objects drawn from all modules), and - quick tier - four covering windows per instance on the two- and three-root trees (each leaves out four other pairs; thorough keeps the full relation). The batched alias law compares messages only for unrelated batch members.",
+    "C13": " DiagramRule vocabulary also holds files in which both tag texts occur but no start tag is followed by an end tag.",
+    "C14": " Plus the parent-module kernel (the hierarchy every 'sub module of' rests on) and a second adversarial naming (a package named like a part of the package directly above it: aab.aa.a) on trees of depth 3.",
+    "C15": " Plus (scanhist) a scan under another configuration first (module_path, exclusions, regex exclusions, level_limit, externals), then a scan judged by C04's absolute reference; pool entries whose regex matches other and more modules in the second architecture; order part with object layers of mixed kind, object order and definition order both permuted.",
+    "C16": " Plus READ pseudo-calls between builder calls (str, layer_mapping, a LayerRule based on the half-built object), the layer_mapping view of every accepted definition, and based_on(<architecture without layers>) in the LayerRule vocabulary.",
+    "C17": " Plus one symbolic bit per aliased module (and for the missing module): the alias text is the module's own full name.",
+    "C04": " A directory symlink inside the tree (both locations are directories of the tree) is modelled; SymPath also answers stat / lstat / open / read_text from the model.",
+}
+
 
 def main():
     props = [json.loads(l) for l in open(os.path.join(HERE, "properties.jsonl"))]
@@ -133,7 +151,7 @@ def main():
                 "evidence_file": f"/verif/evidence/{pid}.json",
                 "replay_cmd_template": f"./check {pid} --replay {{path}}",
                 "engine": c.get("engine", "vf"),
-                "level_claimed": {"category": "model_checking", "text": c["text"], "design_ref": f"DESIGN.md section {c['ref']}"},
+                "level_claimed": {"category": "model_checking", "text": c["text"] + EXT.get(pid, ""), "design_ref": f"DESIGN.md section {c['ref']}"},
                 "level_note": c["note"],
                 "technique": c["technique"],
             }
